@@ -125,15 +125,157 @@ theorem filter_body_run {Fc F : Nat} {σ0 σI : St} {cr : Nat} {f : Nat → Valu
     have hcallA := call_builtin_run (F := F + 3)
       (ev_builtin_ident (ctx := { env := { vars := [] } :: { vars := [] } :: { vars := [] } :: cx.env, callDepth := cx.callDepth, path := 0 :: 1 :: 0 :: 1 :: cx.path })
         (n := "append") (by simp only [lookupVar_cons, List.lookup]; exact happ) (by decide) (F + 2) gs σ2)
-      (ev_args2 hdst hvv F gs)
+      (ev_args2 (ctx := { env := { vars := [] } :: { vars := [] } :: { vars := [] } :: cx.env, callDepth := cx.callDepth, path := 0 :: 1 :: 0 :: 1 :: cx.path }) hdst hvv F gs)
     rw [callBuiltin_append_run (hda.ext he2) x gs] at hcallA
+    unfold call2
     rw [execBlock_cons, execStmts_cons, execStmt_assign_call]
     simp only [bind_assoc, pure_bind]
-    unfold call2 at *
     rw [em_bind_ok hcallA]
     rw [em_bind_ok (writeVar_run (env := { vars := [] } :: { vars := [] } :: { vars := [] } :: cx.env) (n := "dst") (c := cd)
       (by simp only [lookupVar_cons, List.lookup]; exact hdv) _ gs _)]
     simp only [execStmts_nil]
     rfl
+
+/-- What `filter` has built after `i` iterations. -/
+def filtered (f : Nat → Value → Value) (es : List Value) (i : Nat) : List Value :=
+  (((es.take i).zipIdx).filter (fun q => truthy (f q.2 q.1))).map (fun q => q.1)
+
+theorem take_succ_zipIdx {es : List Value} {i : Nat} {x : Value} (h : es[i]? = some x) :
+    (es.take (i + 1)).zipIdx = (es.take i).zipIdx ++ [(x, i)] := by
+  have hi : i < es.length := by
+    rcases Nat.lt_or_ge i es.length with hc | hc
+    · exact hc
+    · have : es[i]? = none := by simp; omega
+      rw [this] at h; cases h
+  rw [List.take_add_one, h]
+  simp [List.zipIdx_append, List.length_take, Nat.min_eq_left (Nat.le_of_lt hi)]
+
+theorem filtered_succ_true (f : Nat → Value → Value) {es : List Value} {i : Nat} {x : Value} (h : es[i]? = some x)
+    (ht : truthy (f i x) = true) : filtered f es (i + 1) = filtered f es i ++ [x] := by
+  unfold filtered
+  rw [take_succ_zipIdx h]
+  simp [List.filter_append, ht]
+
+theorem filtered_succ_false (f : Nat → Value → Value) {es : List Value} {i : Nat} {x : Value} (h : es[i]? = some x)
+    (ht : truthy (f i x) = false) : filtered f es (i + 1) = filtered f es i := by
+  unfold filtered
+  rw [take_succ_zipIdx h]
+  simp [List.filter_append, ht]
+
+theorem filtered_all (f : Nat → Value → Value) (es : List Value) :
+    filtered f es es.length = (es.zipIdx.filter (fun q => truthy (f q.2 q.1))).map (fun q => q.1) := by
+  simp [filtered]
+
+def filterRest : List Stmt :=
+  [.assign "Define" [.ident "dst"] [.arr []], forKV filterLoop, .ret (some (.ident "dst"))]
+
+theorem filterBody_eq : filterBody = guardArr :: filterRest := rfl
+
+theorem filter_after_define {Fc : Nat} {σ σD : St} {menv : Env} {ctx : Ctx} {r st cr : Nat} {es : List Value}
+    {f : Nat → Value → Value} (gs : GSt)
+    (harr : ArrAt σ r st es) (hcb : CallsAs Fc σ cr f) (hd : ctx.callDepth < 899)
+    (happ : lookupVar menv "append" = none) (hsc : ∀ i x, es[i]? = some x → Scalar (f i x) = true)
+    (F : Nat) (hF : Fc ≤ F) (hI0 : AccInv σ r cr (filtered f es) 0 σD) :
+    ∃ σ'' rd sd, AccInv σ r cr (filtered f es) es.length σ'' ∧
+      σ''.heap[σ.heap.size + 5]? = some (.cell (.arr rd) false) ∧ DstArr σ'' rd sd ((es.zipIdx.filter (fun q => truthy (f q.2 q.1))).map (fun q => q.1)) ∧
+      (do let p ← execStmts (F + es.length + 11 + 2)
+                    { env := mapEnv menv σ, callDepth := ctx.callDepth + 1, path := [0] }
+                    [forKV filterLoop, .ret (some (.ident "dst"))] 2
+          match p.1 with
+          | .ret v => pure v
+          | _ => pure Value.undef : EM Value) gs σD = .ok ((.arr rd, gs), σ'') := by
+  have hloop := forin_loop_run (Fb := F + 10)
+    (ctx := { env := mapEnv menv σ, callDepth := ctx.callDepth + 1, path := 2 :: [0] })
+    (r := r) (st := st) (es := es) (body := filterLoop) gs
+    (AccInv σ r cr (filtered f es)) (fun _ _ => none)
+    (fun _ σ' h => harr.ext h.ext)
+    (fun _ σ' h => ⟨σ.heap.size, false, mapEnv_x menv σ, h.cx⟩)
+    (by show (ctx.callDepth + 1 == 0) = false; simp)
+    (by
+      intro F' hF' i x σ' hget hI
+      obtain ⟨k, rfl⟩ : ∃ k, F' = k + 10 := ⟨F' - 10, by omega⟩
+      obtain ⟨rd, sd, hdc, hda, hrd⟩ := hI.dst
+      have hfnV : Var σ' (mapEnv menv σ) "fn" (.fn cr) := ⟨_, false, mapEnv_fn menv σ, hI.cf⟩
+      obtain ⟨σ2, he2, hrun⟩ := filter_body_run (F := k) (σ0 := σ) (σI := st2 σ' (.int i) x)
+        (cx := iterCtx (pushCtx { env := mapEnv menv σ, callDepth := ctx.callDepth + 1, path := 2 :: [0] })
+          (mapEnv menv σ) σ') (i := i) (x := x) (cd := σ.heap.size + 5) gs hcb (by omega)
+        (hI.ext.trans (ext_st2 _ _ _)) (by show ctx.callDepth + 1 < 900; omega)
+        (iter_var_other _ _ hfnV (by decide) (by decide)) (iter_var_k _ _ _ _ _) (iter_var_v _ _ _ _ _)
+        (by simp [iterCtx, lookupVar_cons, List.lookup, mapEnv_append happ])
+        (by simp [iterCtx, lookupVar_cons, List.lookup, mapEnv_dst])
+        ((ext_st2 _ _ _).keep _ _ hdc) (hda.ext (ext_st2 _ _ _)) (hsc i x hget)
+      rcases Bool.eq_false_or_eq_true (truthy (f i x)) with ht | ht
+      · rw [ht] at hrun
+        exact ⟨_, hrun, accInv_step hI hdc hda hrd (filtered_succ_true f hget ht) ((ext_st2 _ _ _).trans he2)⟩
+      · rw [ht] at hrun
+        exact ⟨_, hrun, accInv_keep hI (filtered_succ_false f hget ht) ((ext_st2 _ _ _).trans he2)⟩)
+    σD hI0
+  obtain ⟨σ', j, hrun, hI', hj⟩ := hloop
+  have hjn : j = es.length := hj (firstRes_none es 0)
+  subst hjn
+  obtain ⟨rd, sd, hdc, hda, hrd⟩ := hI'.dst
+  refine ⟨σ', rd, sd, hI', hdc, by rw [← filtered_all]; exact hda, ?_⟩
+  rw [execStmts_cons]
+  simp only [bind_assoc]
+  have hfu : F + 10 + es.length + 2 = F + es.length + 11 + 1 := by omega
+  rw [hfu, firstRes_none] at hrun
+  rw [em_bind_ok hrun]
+  simp only [flowOf]
+  rw [show F + es.length + 11 + 1 = (F + es.length + 10) + 2 from by omega, execStmts_cons, execStmt_ret]
+  simp only [bind_assoc, pure_bind]
+  rw [em_bind_ok (ev_ident (ctx := { env := mapEnv menv σ, callDepth := ctx.callDepth + 1, path := (2 + 1) :: [0] })
+    ⟨σ.heap.size + 5, false, mapEnv_dst menv σ, hdc⟩ (F + es.length + 9) gs)]
+  rfl
+
+theorem filter_run {Fc : Nat} {σ : St} {menv : Env} {ctx : Ctx} {r st cr : Nat} {es : List Value}
+    {f : Nat → Value → Value} (gs : GSt)
+    (hb : IsArrLikeBound σ menv) (harr : ArrAt σ r st es) (hcb : CallsAs Fc σ cr f) (hd : ctx.callDepth < 899)
+    (hwf : WfApp σ) (happ : lookupVar menv "append" = none)
+    (hsc : ∀ i x, es[i]? = some x → Scalar (f i x) = true) (F : Nat) (hF : Fc ≤ F) :
+    ∃ σ'' rd sd, AccInv σ r cr (filtered f es) es.length σ'' ∧
+      σ''.heap[σ.heap.size + 5]? = some (.cell (.arr rd) false) ∧ DstArr σ'' rd sd ((es.zipIdx.filter (fun q => truthy (f q.2 q.1))).map (fun q => q.1)) ∧
+      callClosure (F + es.length + 17) ctx ⟨["x", "fn"], false, filterBody, menv⟩ [.arr r, .fn cr] gs σ =
+        .ok ((.arr rd, gs), σ'') := by
+  rw [filterBody_eq, show F + es.length + 17 = (F + es.length + 1) + 16 from by omega,
+    guardedArr_call (F := F + es.length + 1) gs σ (by decide) (by decide) hb hd]
+  simp only [isArrLike, if_true]
+  unfold filterRest
+  rw [execStmts_cons, show F + es.length + 1 + 12 = (F + es.length + 11) + 2 from by omega, execStmt_define_arr]
+  simp only [bind_assoc, pure_bind]
+  rw [show F + es.length + 11 + 1 = (F + es.length + 10) + 2 from by omega]
+  rw [em_bind_ok (ev_arr_nil (F + es.length + 10) _ gs _)]
+  rw [em_bind_ok (declare_fn (f := { vars := [] }) (E := (enter2 menv ctx "x" "fn" σ).env) "dst" _ 0 gs _
+    (by show (ctx.callDepth + 1 == 0) = false; simp) rfl)]
+  have hG : (stG σ (.arr r) (.fn cr)).heap.size = σ.heap.size + 3 := by simp [stG, st2, pushSt_size]
+  have hsz : (pushSt (pushSt (stG σ (Value.arr r) (Value.fn cr)) (Obj.store #[] 1))
+      (Obj.arr (stG σ (Value.arr r) (Value.fn cr)).heap.size 0 0)).heap.size = σ.heap.size + 5 := by
+    simp [pushSt_size, hG]
+  have hI0 : AccInv σ r cr (filtered f es) 0 (pushSt (pushSt (pushSt (stG σ (Value.arr r) (Value.fn cr)) (Obj.store #[] 1))
+      (Obj.arr (stG σ (Value.arr r) (Value.fn cr)).heap.size 0 0))
+      (Obj.cell (Value.arr ((stG σ (Value.arr r) (Value.fn cr)).heap.size + 1)) false)) := by
+    have he : Ext σ (pushSt (pushSt (pushSt (stG σ (Value.arr r) (Value.fn cr)) (Obj.store #[] 1))
+      (Obj.arr (stG σ (Value.arr r) (Value.fn cr)).heap.size 0 0))
+      (Obj.cell (Value.arr ((stG σ (Value.arr r) (Value.fn cr)).heap.size + 1)) false)) :=
+      (ext_stG σ _ _).trans (((ext_push _ _).trans (ext_push _ _)).trans (ext_push _ _))
+    have hk := (((ext_push (stG σ (Value.arr r) (Value.fn cr)) (Obj.store #[] 1)).trans (ext_push _ (Obj.arr (stG σ (Value.arr r) (Value.fn cr)).heap.size 0 0))).trans
+      (ext_push _ (Obj.cell (Value.arr ((stG σ (Value.arr r) (Value.fn cr)).heap.size + 1)) false)))
+    refine ⟨he, he.wf hwf, ?_, ?_, (stG σ (.arr r) (.fn cr)).heap.size + 1, (stG σ (.arr r) (.fn cr)).heap.size, ?_, ⟨?_, ?_, ?_⟩, ?_⟩
+    · exact hk.keep _ _ ((ext_push _ _).keep _ _ (st2_get0 σ _ _))
+    · exact hk.keep _ _ ((ext_push _ _).keep _ _ (st2_get1 σ _ _))
+    · have := pushSt_new (pushSt (pushSt (stG σ (Value.arr r) (Value.fn cr)) (Obj.store #[] 1))
+        (Obj.arr (stG σ (Value.arr r) (Value.fn cr)).heap.size 0 0))
+        (Obj.cell (Value.arr ((stG σ (Value.arr r) (Value.fn cr)).heap.size + 1)) false)
+      rwa [hsz] at this
+    · have := pushSt_new (pushSt (stG σ (Value.arr r) (Value.fn cr)) (Obj.store #[] 1))
+        (Obj.arr (stG σ (Value.arr r) (Value.fn cr)).heap.size 0 0)
+      rw [pushSt_size] at this
+      exact (ext_push _ _).keep _ _ this
+    · exact ((ext_push _ _).trans (ext_push _ _)).keep _ _ (pushSt_new (stG σ (Value.arr r) (Value.fn cr)) (Obj.store #[] 1))
+    · exact hwf _ (by omega)
+    · omega
+  obtain ⟨σ'', rd, sd, h1, h2, h3, h4⟩ := filter_after_define (ctx := ctx) (menv := menv) gs harr hcb hd happ hsc F hF hI0
+  refine ⟨σ'', rd, sd, h1, h2, h3, ?_⟩
+  rw [hsz]
+  exact h4
 
 end Tengo.Proofs.C19Enum
